@@ -15,6 +15,7 @@ import (
 
 // script is one behaviour of the randomness source: a byte stream, a chunking policy, and a fault.
 type script struct {
+	prior    int        // index into c18Priors: the value the receiver holds before the call
 	blocks   []*big.Int // 32-byte blocks
 	chunk    int        // bytes per Read at most (0 = as many as asked)
 	alt      int        // if > 0, chunk sizes alternate between chunk and alt
@@ -97,8 +98,11 @@ func (s script) String() string {
 		bl += fmt.Sprintf("%x,", b)
 	}
 
-	return fmt.Sprintf("blocks=[%s] chunk=%d alt=%d faultAt=%d withData=%v err=%d", bl, s.chunk, s.alt, s.faultAt, s.withData, s.errKind)
+	return fmt.Sprintf("receiver-before=%x blocks=[%s] chunk=%d alt=%d faultAt=%d withData=%v err=%d", c18Priors[s.prior], bl, s.chunk, s.alt, s.faultAt, s.withData, s.errKind)
 }
+
+// c18Priors are the values the receiver may hold before Random is called (Random must overwrite any of them).
+var c18Priors = []*big.Int{big.NewInt(0), big.NewInt(1), new(big.Int).Sub(ref.N, big.NewInt(1)), ref.Mod(ref.OS2IP(fill(32, 2)), ref.N)}
 
 // c18Oracle: the first complete block with value mod n != 0, reduced; ok=false means Random must panic.
 func c18Oracle(s script) (*big.Int, bool) {
@@ -131,7 +135,7 @@ func c18Case(s script) (key, detail, class string) {
 
 	defer func() { rand.Reader = saved }()
 
-	sc := newScalar(big.NewInt(0))
+	sc := newScalar(c18Priors[s.prior])
 
 	var ret *secp256k1.Scalar
 
@@ -207,7 +211,7 @@ func C18(r *ev.Report) {
 	deliveries := []struct{ chunk, alt int }{{0, 0}, {1, 0}, {31, 1}, {16, 0}, {5, 27}}
 	faultOffsets := []int{0, 1, 16, 31}
 
-	r.Rule("crypto/rand.Reader replaced by a scripted reader; every script = block sequence over {0, 1, n-1, n, n+1, 2^255, 2^256-1, pattern} of length <= depth x delivery mode {whole, 1 byte per Read, 31+1, 16+16, 5+27} x fault {none / stream exhausted, failure after j in {0,1,16,31} bytes of block b for every b <= depth, with and without data in the failing Read, io.EOF / io.ErrUnexpectedEOF / custom error}; oracle = first complete block whose value mod n != 0, reduced, else panic; deviation view: default answer 'a full valid block', deviations = zero block, n, >= n, short read, error; non-trivial = scripts with at least one deviation")
+	r.Rule("crypto/rand.Reader replaced by a scripted reader; every script = block sequence over {0, 1, n-1, n, n+1, 2^255, 2^256-1, pattern} of length <= depth x prior receiver value {0, 1, n-1, pattern} x delivery mode {whole, 1 byte per Read, 31+1, 16+16, 5+27} x fault {none / stream exhausted, failure after j in {0,1,16,31} bytes of block b for every b <= depth, with and without data in the failing Read, io.EOF / io.ErrUnexpectedEOF / custom error}; oracle = first complete block whose value mod n != 0, reduced, else panic; deviation view: default answer 'a full valid block', deviations = zero block, n, >= n, short read, error; non-trivial = scripts with at least one deviation")
 	r.Bound("depth", depth)
 	r.Bound("block_alphabet", len(blocks))
 
@@ -257,7 +261,19 @@ func C18(r *ev.Report) {
 	gen(nil)
 	// fault with data that completes a block exactly (faultAt = 32(b+1)) is covered by faultAt=32b+0 withData of the next block.
 
+	// every script with every prior receiver value
+	base := scripts
+	scripts = nil
+
+	for _, s := range base {
+		for p := range c18Priors {
+			s.prior = p
+			scripts = append(scripts, s)
+		}
+	}
+
 	r.Bound("scripts", len(scripts))
+	r.Bound("prior_receiver_values", len(c18Priors))
 	r.States.Add(int64(len(scripts)))
 
 	// single-threaded: rand.Reader is process-global
@@ -273,7 +289,7 @@ func C18(r *ev.Report) {
 		}
 
 		if key != "" {
-			c := Case{"op": "random", "chunk": fmt.Sprint(s.chunk), "alt": fmt.Sprint(s.alt), "faultAt": fmt.Sprint(s.faultAt), "withData": fmt.Sprint(s.withData), "errKind": fmt.Sprint(s.errKind)}
+			c := Case{"op": "random", "prior": fmt.Sprint(s.prior), "chunk": fmt.Sprint(s.chunk), "alt": fmt.Sprint(s.alt), "faultAt": fmt.Sprint(s.faultAt), "withData": fmt.Sprint(s.withData), "errKind": fmt.Sprint(s.errKind)}
 			for j, b := range s.blocks {
 				c[fmt.Sprintf("block%d", j)] = hx(b)
 			}
@@ -306,6 +322,7 @@ func init() {
 			s.blocks = append(s.blocks, unhx(b))
 		}
 
+		fmt.Sscan(c["prior"], &s.prior)
 		fmt.Sscan(c["chunk"], &s.chunk)
 		fmt.Sscan(c["alt"], &s.alt)
 		fmt.Sscan(c["faultAt"], &s.faultAt)
